@@ -23,24 +23,24 @@ def run(ctx, repo):
               'builtins/stdlib callables and of sink callables in sa.absint')
     ctx.assume('A-NODE: node values are str / lists of nodes built by the composers')
     ctx.assume('hashing a looked-up object used as a mapping key (its __hash__) is not counted as calling it')
-    RR.r_table_closed(ctx, repo, RR.table_groups_full())
-    RC.r_fallback_raises(ctx, repo, UNIVERSES)
-    RR.r_registry_decl(ctx, repo)
-    RR.r_cow(ctx, repo, only=['yaml_constructors', 'yaml_multi_constructors'])
-    RR.r_sole_writer(ctx, repo)
-    E.r_global_readonly(ctx, repo)
-    RR.r_dispatch_self(ctx, repo)
-    RC.r_loader_composition(ctx, repo, {'loader.FullLoader': 'constructor.FullConstructor',
+    ctx.call(RR.r_table_closed, repo, RR.table_groups_full())
+    ctx.call(RC.r_fallback_raises, repo, UNIVERSES)
+    ctx.call(RR.r_registry_decl, repo)
+    ctx.call(RR.r_cow, repo, only=['yaml_constructors', 'yaml_multi_constructors'])
+    ctx.call(RR.r_sole_writer, repo)
+    ctx.call(E.r_global_readonly, repo)
+    ctx.call(RR.r_dispatch_self, repo)
+    ctx.call(RC.r_loader_composition, repo, {'loader.FullLoader': 'constructor.FullConstructor',
                                         'cyaml.CFullLoader': 'constructor.FullConstructor'})
-    RC.r_api_binding(ctx, repo, {'full_load': 'loader.FullLoader', 'full_load_all': 'loader.FullLoader'})
-    RC.r_positive_control(ctx, repo)
-    RC.r_no_sink(ctx, repo, UNIVERSES, allowed=LOOKUP_OK, label='full')
-    RC.r_sysmodules_guard(ctx, repo, UNIVERSES)
-    RC.r_return_universe(ctx, repo, UNIVERSES, RC.FULL_TAGS, label='full')
-    RC.r_frontend_no_sink(ctx, repo, UNIVERSES)
-    RC.r_unsafe_only_in_unsafe(ctx, repo, UNIVERSES)
-    RX.r_getattr_chain(ctx, repo)
-    RREPR.r_merge_shape(ctx, repo)
+    ctx.call(RC.r_api_binding, repo, {'full_load': 'loader.FullLoader', 'full_load_all': 'loader.FullLoader'})
+    ctx.call(RC.r_positive_control, repo)
+    ctx.call(RC.r_no_sink, repo, UNIVERSES, allowed=LOOKUP_OK, label='full')
+    ctx.call(RC.r_sysmodules_guard, repo, UNIVERSES)
+    ctx.call(RC.r_return_universe, repo, UNIVERSES, RC.FULL_TAGS, label='full')
+    ctx.call(RC.r_frontend_no_sink, repo, UNIVERSES)
+    ctx.call(RC.r_unsafe_only_in_unsafe, repo, UNIVERSES)
+    ctx.call(RX.r_getattr_chain, repo)
+    ctx.call(RREPR.r_merge_shape, repo)
 
 if __name__ == '__main__':
     sys.exit(report.main('C04', 'proof', run))
